@@ -352,7 +352,10 @@ fn rand_adp(
     nontrivial: &(dyn Fn(&AFacts) -> bool + Sync),
 ) -> Outcome {
     let seed = p.seed;
-    let small = AGen { min_ops: g.min_ops.min(2), max_ops: g.max_ops.min(12), ..g.clone() };
+    // under Miri: short histories on vectors within one imbl chunk (imbl 5.0's FocusMut, which Sort's bulk sort
+    // goes through for longer vectors, is reported by Miri's Tree Borrows model - a matter of that dependency,
+    // see DESIGN.md section 9)
+    let small = AGen { min_ops: g.min_ops.min(2), max_ops: g.max_ops.min(12), maxlen: g.maxlen.min(24), init_max: g.init_max.min(12), far_runs: false, ..g.clone() };
     let g = if p.san() { &small } else { g };
     p.cases(gen_name, n, |i, out| {
         let mut rng = Rng::new(mix(seed, mix(hash_of(&gen_name), i)));
